@@ -4,7 +4,7 @@ from typing import Pattern
 from codemodder.codemods.base_transformer import BaseTransformerPipeline
 from codemodder.codetf import Change, ChangeSet
 from codemodder.context import CodemodExecutionContext
-from codemodder.diff import create_diff
+from codemodder.diff import create_diff, source_lines
 from codemodder.file_context import FileContext
 from codemodder.logging import logger
 from codemodder.result import Result
@@ -53,10 +53,8 @@ class RegexTransformerPipeline(BaseTransformerPipeline):
     ) -> ChangeSet | None:
 
         try:
-            original_lines = (
-                file_context.file_path.read_bytes()
-                .decode("utf-8")
-                .splitlines(keepends=True)
+            original_lines = source_lines(
+                file_context.file_path.read_bytes().decode("utf-8")
             )
         except Exception:
             file_context.add_failure(
